@@ -115,7 +115,7 @@ Print Assumptions C11_records.
    instances; front/TyUnion.v + front/TyUnionItem.v the union): a schema is any sequence of import lines (front/TyImport.v), struct, readonly struct, message,
    enum and (non-empty) union definitions, union branches being structs or messages under distinct indices, structs and messages
    optionally under an [opcode(..)] line (front/TyOpcode.v), enums optionally with a declared integer base type (front/TyEnum.v), message fields
-   optionally under a [deprecated("reason")] line (front/TyDep.v), structs and messages optionally under `//` doc comment lines (front/TyDoc.v), struct and message FIELDS optionally under `//` doc comment lines - which also give the field its tags - and then a [deprecated(..)] line (front/TyFDoc.v, front/TyFDocM.v), and likewise the MEMBERS of an enum (front/TyEDoc.v) and of a union (front/TyUDoc.v), struct fields optionally followed on their line by a `//` comment, which belongs to no definition (front/TyFEol.v);
+   optionally under a [deprecated("reason")] line (front/TyDep.v), structs and messages optionally under `//` doc comment lines (front/TyDoc.v), struct and message FIELDS optionally under `//` doc comment lines - which also give the field its tags - and then a [deprecated(..)] line (front/TyFDoc.v, front/TyFDocM.v), and likewise the MEMBERS of an enum (front/TyEDoc.v) and of a union (front/TyUDoc.v), enum values and integer opcodes decimal or 0x-hexadecimal literals (front/LexInv.v: next_hexnumber), struct fields optionally followed on their line by a `//` comment, which belongs to no definition (front/TyFEol.v);
    a field type is an
    identifier, array[T], map[K, V] with a primitive key, or any of those followed by any number of [] - nested to ANY depth
    (front/TyInv.v: read_field_type on the tokens of a type expression, by induction on the expression); enums untyped,
@@ -254,13 +254,14 @@ Proof.
     + unfold cmember_opt, bce, bem. do 2 f_equal. apply map_ext. intros m. cbn [fst snd]. destruct uns; reflexivity.
     + do 2 f_equal. apply map_ext. intros [cs [d [x bn fl0|x bn fl0]]]; reflexivity.
 Qed.
-(* the hypotheses are met (two imports, an enum, a readonly struct with a map of arrays, a message with nested containers, a union, a message and a struct under opcode lines, an int16 enum, a message with a deprecated field, a struct under two comment lines, a union under comment / opcode / comment / opcode lines, a byte enum under a comment line, an empty struct, a struct with a field under a comment line and two tag lines and a deprecated field, a message with a commented deprecated field, a uint8 enum with a commented member and a deprecated one, a struct under a comment line and an opcode line whose field has its own comment line, a struct with an end-of-line comment after a field, an enum without base type with a commented member, a readonly struct with a deprecated field, a union whose second member - after a member spanning lines - carries a comment line, a tag line and a deprecation;
+(* the hypotheses are met (two imports, an enum, a readonly struct with a map of arrays, a message with nested containers, a union, a message and a struct under opcode lines, an int16 enum, a message with a deprecated field, a struct under two comment lines, a union under comment / opcode / comment / opcode lines, a byte enum under a comment line, an empty struct, a struct with a field under a comment line and two tag lines and a deprecated field, a message with a commented deprecated field, a uint8 enum with a commented member and a deprecated one, a struct under a comment line and an opcode line whose field has its own comment line, a struct with an end-of-line comment after a field, an enum without base type with a commented member, a readonly struct with a deprecated field, a union whose second member - after a member spanning lines - carries a comment line, a tag line and a deprecation, a uint8 enum with the hexadecimal value 0x1F;
    blank lines), and the conclusion computed *)
 Example C11_schema_witness :
   let E := {| ic := 69%N; itl := [] |} in let R := {| ic := 82%N; itl := [111%N] |} in let M := {| ic := 77%N; itl := [] |} in
   let S := {| ic := 83%N; itl := [] |} in let A := {| ic := 65%N; itl := [] |} in let B := {| ic := 66%N; itl := [] |} in
   let i32 := {| ic := 105%N; itl := [110; 116; 51; 50]%N |} in let x := {| ic := 120%N; itl := [] |} in let y := {| ic := 121%N; itl := [] |} in
   let str := {| ic := 115%N; itl := [116; 114; 105; 110; 103]%N |} in
+  let hex1f := {| xc := 48%N; xds := [120; 49; 70]%N; xv := 31%N |} in
   let one := {| xc := 49%N; xds := []; xv := 1%N |} in let n200 := {| xc := 50%N; xds := [48; 48]%N; xv := 200%N |} in
   let dl := [SImport [97; 46; 98; 111; 112]%N 0; SImport [98]%N 2; SEnum E [(A, one); (B, n200)] 1;
              SReadonly R [(LMap str (LArray (LSimple i32 1) 0) 2, x); (LSimple i32 0, y)] 0;
@@ -287,7 +288,8 @@ Example C11_schema_witness :
              SFDocRoStruct {| ic := 81%N; itl := [] |} [([], (Some [113]%N, (LSimple i32 0, x)))] 0;
              SFDocUnion {| ic := 87%N; itl := [111%N] |}
                [([], (None, LUs one A [(LSimple i32 0, x)]));
-                ([[32; 98]%N; [91; 116; 97; 103; 40; 111; 41; 93]%N], (Some [103]%N, LUm n200 B [(one, (LSimple str 0, y))]))] 0] in
+                ([[32; 98]%N; [91; 116; 97; 103; 40; 111; 41; 93]%N], (Some [103]%N, LUm n200 B [(one, (LSimple str 0, y))]))] 0;
+             STEnum {| ic := 88%N; itl := [] |} {| ic := 117%N; itl := [105; 110; 116; 56]%N |} true 8%N [(A, hex1f)] 0] in
   let lay := glayout (map xel_of dl) in
   Forall sdefn_ok dl /\ map snd lay = schema_lexemes dl /\ sep_ok lay /\
   (exists s', read_file (render lay []) false = POk (schema_file dl) s') /\
@@ -298,8 +300,8 @@ Example C11_schema_witness :
   map (fun p => (u_tags (snd p), u_dep (snd p), u_depmsg (snd p), match u_msg (snd p) with Some m => m_comment m | None => [] end))
       (flat_map un_fields (skipn 2 (unions (schema_file dl))))
   = [([], false, [], []); ([{| tg_key := [111]%N; tg_value := []; tg_bool := true |}], true, [103]%N, [32; 98; 10; 91; 116; 97; 103; 40; 111; 41; 93]%N)] /\
-  map e_comment (enums (schema_file dl)) = [[]; []; [102]; []; []]%N /\
-  map (fun o => (o_comment o, o_dep o, o_depmsg o, o_uvalue o)) (flat_map e_opts (skipn 3 (enums (schema_file dl)))) = [([32; 101; 10; 32; 102]%N, false, [], 1%N); ([], true, [120]%N, 200%N); ([32; 107]%N, false, [], 1%N)] /\
+  map e_comment (enums (schema_file dl)) = [[]; []; [102]; []; []; []]%N /\
+  map (fun o => (o_comment o, o_dep o, o_depmsg o, o_uvalue o)) (flat_map e_opts (skipn 3 (enums (schema_file dl)))) = [([32; 101; 10; 32; 102]%N, false, [], 1%N); ([], true, [120]%N, 200%N); ([32; 107]%N, false, [], 1%N); ([], false, [], 31%N)] /\
   map (fun p => f_dep (snd p)) (flat_map m_fields (messages (schema_file dl))) = [false; false; false; true; false; true; false] /\
   map (fun p => f_comment (snd p)) (flat_map m_fields (messages (schema_file dl))) = [[]; []; []; []; []; [32; 109]; []]%N /\
   map (fun f => f_type f) (flat_map s_fields (structs (schema_file dl)))
@@ -313,7 +315,9 @@ Example C11_schema_witness :
 Proof.
   cbv zeta.
   match goal with |- Forall sdefn_ok ?d /\ _ => assert (Hok : Forall sdefn_ok d) end.
-  { repeat constructor; cbn; intuition discriminate. }
+  { assert (Hhex : idx_ok {| xc := 48%N; xds := [120; 49; 70]%N; xv := 31%N |}).
+    { split; [reflexivity|]. right. split; [reflexivity|]. exists 49%N, [70%N]. split; [reflexivity|repeat constructor]. }
+    repeat (first [exact Hhex | constructor]); cbn; intuition discriminate. }
   split; [exact Hok|].
   assert (Hx : Forall xel_ok (map xel_of _)) by (eapply Forall_map'; exact Hok).
   split; [exact (glayout_lex _ Hx)|]. split; [exact (glayout_sep _ Hx)|]. split; [eexists; vm_compute; reflexivity|]. repeat split; vm_compute; reflexivity.
